@@ -17,14 +17,14 @@ def spec_from_json(j):
     return Has(*j["has"], name=j.get("name"), within=j.get("within"))
 
 
-def run_cone(ctx, tag, roots, min_bodies, stop=(), extra_filter=None):
+def run_cone(ctx, tag, roots, min_bodies, stop=(), extra_filter=None, audit_path=None, coverage_key=None):
     cone = Cone(ctx, roots, stop=stop)
     for r in cone.unresolved:
         ctx.violate(tag + ".root", r, "cone root `%s` no longer exists" % r, key="%s.root|%s" % (tag, r))
     ctx.floor(tag + ".cone-size", "bodies in the call cone", len(cone.bodies), min_bodies)
     for p in cone.bodies:
         ctx.functions.add(p)
-    audit = load_audit(AUDIT)
+    audit = load_audit(audit_path or AUDIT)
     sites = enumerate_sites(ctx, cone)
     stats = dict(sites=len(sites), auto=0, invariant=0, requires=0, unaudited=0, findings=0)
     seen_keys = set()
@@ -67,5 +67,8 @@ def run_cone(ctx, tag, roots, min_bodies, stop=(), extra_filter=None):
         else:
             stats["findings"] += 1
             ctx.violate(tag + ".finding", s.body.path, "%s: %s" % (s.kind, a["reason"]), site=s.loc, key="P|" + key)
-    ctx.extra_coverage = dict(cone=dict(roots=len(roots), bodies=len(cone.bodies), extern_call_sites=len(cone.extern_calls), **stats))
+    cov = dict(roots=len(roots), bodies=len(cone.bodies), extern_call_sites=len(cone.extern_calls), **stats)
+    if not hasattr(ctx, "extra_coverage"):
+        ctx.extra_coverage = {}
+    ctx.extra_coverage[coverage_key or "cone"] = cov
     return cone, sites
